@@ -3,4 +3,4 @@ Require Extraction.
 Require Import ExtrOcamlBasic.
 Extraction "model.ml" keep toy_init toy_step toy_hnew toy_hstep toy_havail toy_heof zh_eof z_mid tm_eof toy_hflush toy_drain
   request_read core pend pr pa de re fed connected tpaused rpaused parser_alive pp_present has_more
-  ppaused more rsize reof rexn low high delivered buf splits total cursor plength cst ctail d_size.
+  dg_srv_closing_feeds ppaused more rsize reof rexn low high delivered buf splits total cursor plength cst ctail d_size.
